@@ -357,6 +357,12 @@ def run(chk):
         from . import c07
         return True, "see C07.R5 (flush reaches every signal)", ["C07.R5"]
     common.arg_agreement_rule(chk, P, "C12", [("emit_otlp", "src/client.rs"), ("emit_otlp", "src/client/http.rs")], 10)
+    common.results_inspected_rule(
+        chk, P, "C12.R8:results-inspected", "no transport, encoding or configuration failure in the OTLP client is silently dropped",
+        lambda b: b.crate == "emit_otlp" and "generated" not in b.file and "::tests::" not in b.key and "/data" not in b.file,
+        {(r"http::tls_handshake(::\{closure#\d+\})*$", "add"):
+             "a native root certificate the TLS library cannot parse is skipped; the handshake then fails (and is reported) only if no usable root remains"},
+        70)
     # a failed request is sent again only if the channel's retry loop hands the remainder back: the retry machinery of the channel is part of this property's mechanism
     from . import batcher
     batcher.bounded_retry(chk, P, "C12.batcher")
